@@ -228,6 +228,31 @@ func main() {
 			}
 		}
 	}
+	// Freeze: Starlark freezes a module-level cache when the module has loaded; the model has no frozen flag, so Freeze
+	// must do nothing and the struct must not grow state that once could consult
+	if fd := f.Func("cache.Freeze"); fd == nil {
+		o.Fail("func (*cache).Freeze not found")
+		o.Def("freezeBody", "String", `"?"`)
+	} else {
+		o.Def("freezeBody", "String", lib.LeanString(lib.NormFunc(fd)))
+	}
+	var fields []string
+	for _, d := range f.AST.Decls {
+		if gd, ok := d.(*ast.GenDecl); ok {
+			for _, sp := range gd.Specs {
+				if ts, ok := sp.(*ast.TypeSpec); ok && ts.Name.Name == "cache" {
+					if st, ok := ts.Type.(*ast.StructType); ok {
+						for _, fl := range st.Fields.List {
+							for _, n := range fl.Names {
+								fields = append(fields, lib.LeanString(n.Name))
+							}
+						}
+					}
+				}
+			}
+		}
+	}
+	o.Def("cacheFields", "List String", "["+strings.Join(fields, ", ")+"]")
 	o.Def("mutexType", "String", lib.LeanString(mutexType))
 	o.Def("entriesType", "String", lib.LeanString(entriesType))
 }
